@@ -4,6 +4,8 @@ package main
 
 import (
 	"bytes"
+	"cmp"
+	"slices"
 	"context"
 	"encoding/json"
 	"errors"
@@ -83,15 +85,30 @@ type c11Out struct {
 
 func c11Describe(stream []reporter.Report) []c11Rep {
 	var rules []parser.Rule
+	// distinct Pos values of the stream, ranked by the comparison cmpDiags applies to Pos since fix 1588b37
+	// (slices.CompareFunc by Line, FirstColumn, LastColumn): equal id = equal Pos, id order = that order
 	var poss []diags.PositionRanges
+	for _, r := range stream {
+		for _, dg := range r.Problem.Diagnostics {
+			seen := false
+			for _, q := range poss {
+				if c11CmpPos(dg.Pos, q) == 0 {
+					seen = true
+				}
+			}
+			if !seen {
+				poss = append(poss, dg.Pos)
+			}
+		}
+	}
+	sort.SliceStable(poss, func(i, j int) bool { return c11CmpPos(poss[i], poss[j]) < 0 })
 	posID := func(p diags.PositionRanges) int {
 		for i, q := range poss {
-			if reflect.DeepEqual(p, q) || (len(p) == 0 && len(q) == 0) {
+			if c11CmpPos(p, q) == 0 {
 				return i
 			}
 		}
-		poss = append(poss, p)
-		return len(poss) - 1
+		panic("unranked position")
 	}
 	out := make([]c11Rep, len(stream))
 	for i, r := range stream {
@@ -116,6 +133,12 @@ func c11Describe(stream []reporter.Report) []c11Rep {
 		out[i] = d
 	}
 	return out
+}
+
+func c11CmpPos(a, b diags.PositionRanges) int {
+	return slices.CompareFunc(a, b, func(x, y diags.PositionRange) int {
+		return cmp.Or(cmp.Compare(x.Line, y.Line), cmp.Compare(x.FirstColumn, y.FirstColumn), cmp.Compare(x.LastColumn, y.LastColumn))
+	})
 }
 
 func c11CoqReport(d c11Rep) string {
@@ -309,8 +332,8 @@ func c11SortedDiags(d []c11Diag) []c11Diag {
 }
 
 func c11NormEq(a, b c11Rep) bool {
-	a.Diags = c11SortedDiags(a.Diags)
-	b.Diags = c11SortedDiags(b.Diags)
+	a.Diags = c11FullSortedDiags(a.Diags)
+	b.Diags = c11FullSortedDiags(b.Diags)
 	return reflect.DeepEqual(a, b)
 }
 
@@ -319,11 +342,30 @@ func c11KeyEq(a, b c11Rep) bool {
 		a.Summary != b.Summary || a.Details != b.Details {
 		return false
 	}
-	da, db := c11SortedDiags(a.Diags), c11SortedDiags(b.Diags)
+	da, db := c11FullSortedDiags(a.Diags), c11FullSortedDiags(b.Diags)
 	if len(da) == 0 || len(db) == 0 {
 		return len(da) == 0 && len(db) == 0
 	}
-	return da[0].First == db[0].First && da[0].Last == db[0].Last && da[0].Msg == db[0].Msg
+	return da[0].First == db[0].First && da[0].Last == db[0].Last && da[0].Msg == db[0].Msg && da[0].Extra == db[0].Extra
+}
+
+// cmpDiags order: columns, message, then Pos (rank)
+func c11FullSortedDiags(d []c11Diag) []c11Diag {
+	o := append([]c11Diag(nil), d...)
+	sort.SliceStable(o, func(i, j int) bool {
+		a, b := o[i], o[j]
+		if a.First != b.First {
+			return b.First < a.First
+		}
+		if a.Last != b.Last {
+			return a.Last < b.Last
+		}
+		if a.Msg != b.Msg {
+			return a.Msg < b.Msg
+		}
+		return a.Extra < b.Extra
+	})
+	return o
 }
 
 func c11Hyps(stream []reporter.Report, desc []c11Rep) (iseq []bool, h1, h2 bool) {
@@ -519,81 +561,10 @@ func c11GenStream(r *rand.Rand, rep *runReport) (stream []reporter.Report, conso
 }
 
 // ------------------------------------------------------------------------------------------------
-// known finding C11-equal-reports-differ-in-position: Report.isEqual (isSameDiagnostics) does not read
-// Diagnostic.Pos, so two problems that differ only in WHERE their diagnostic points fold into one and the
-// survivor (hence the caret position every Pos-reading reporter renders) is whichever arrived first.
-// Class predicate: the stream holds two reports that the real isEqual equates in both directions and whose
-// sorted diagnostics agree pairwise on (message, first, last) but not on Pos.
-func c11PosClass(stream []reporter.Report, desc []c11Rep) bool {
-	for i := range stream {
-		for j := range stream {
-			if i == j || !reporter.VerifIsEqual(stream[i], stream[j]) || !reporter.VerifIsEqual(stream[j], stream[i]) {
-				continue
-			}
-			da, db := c11SortedDiags(desc[i].Diags), c11SortedDiags(desc[j].Diags)
-			if len(da) != len(db) {
-				continue
-			}
-			same, pos := true, false
-			for k := range da {
-				if da[k].Msg != db[k].Msg || da[k].First != db[k].First || da[k].Last != db[k].Last {
-					same = false
-				}
-				if da[k].Extra != db[k].Extra {
-					pos = true
-				}
-			}
-			if same && pos {
-				return true
-			}
-		}
-	}
-	return false
-}
-
-// the observable with everything that renders Diagnostic.Pos removed (diagnostic identities, console body):
-// inside the known-finding class only this projection must be independent of the arrival order.
-func c11ObservableNoPos(o c11Out, desc []c11Rep) string {
-	var b strings.Builder
-	for _, e := range o.Entries {
-		d := desc[e.Idx]
-		d.Rule = 0
-		d.Diags = nil
-		var ds []string
-		for _, g := range c11SortedDiags(e.Full) {
-			ds = append(ds, fmt.Sprintf("%d-%d:%s", g.First, g.Last, g.Msg))
-		}
-		fmt.Fprintf(&b, "%+v dup=%v ndups=%d diags=%v\n", d, e.Dup, len(e.Dups), ds)
-	}
-	b.WriteString(o.JSONText)
-	b.WriteString(c11StripCarets(o.Console))
-	var ks []int
-	for k := range o.Counts {
-		ks = append(ks, k)
-	}
-	sort.Ints(ks)
-	for _, k := range ks {
-		fmt.Fprintf(&b, "sev%d=%d ", k, o.Counts[k])
-	}
-	b.WriteString(o.Err)
-	return b.String()
-}
-
-// caret lines of the console body (`   ^^^ message`) lose their indentation and width
-func c11StripCarets(s string) string {
-	ls := strings.Split(s, "\n")
-	for i, l := range ls {
-		if t := strings.TrimLeft(l, " "); strings.HasPrefix(t, "^") {
-			ls[i] = strings.TrimLeft(t, "^")
-		}
-	}
-	return strings.Join(ls, "\n")
-}
-
-const c11PosFinding = "C11-equal-reports-differ-in-position"
-
-// the witness of the finding (corpus/C11/pos-tie): two label blocks differing only in token/required; block 1
-// reports the value of ka, block 2 the value of kb, same line, same columns inside the value, same message
+// regression scenario for fix 1588b37 (corpus/C11/pos-tie): before it, isSameDiagnostics ignored Diagnostic.Pos and
+// the two problems below folded into one, the surviving caret position depending on the schedule.
+// two label blocks differing only in token/required; block 1 reports the value of ka, block 2 the value of kb:
+// same line, same columns inside the value, same message, different Pos
 func c11PosTieScenario(nrules int) c11Scenario {
 	var b strings.Builder
 	b.WriteString("groups:\n- name: g\n  rules:\n")
@@ -1060,10 +1031,6 @@ func runC11(args []string) int {
 			rep.hist("real-reporter=" + d.Reporter)
 		}
 		_, h1, h2 := c11Hyps(stream, desc)
-		posClass := c11PosClass(stream, desc)
-		if posClass {
-			rep.hist("real:in-class " + c11PosFinding)
-		}
 		np := nperm
 		if !(h1 && h2) {
 			np = nperm * 4 // hypotheses fail on a real stream: search harder
@@ -1086,14 +1053,8 @@ func runC11(args []string) int {
 			} else if obs != first {
 				what := fmt.Sprintf("the result of the real check pipeline depends on the arrival order of reports (H1=%v H2=%v): workers=1 order vs an interleaving give different output", h1, h2)
 				c := map[string]any{"scenario": sc, "stream": desc, "order_a": firstOut, "order_b": o}
-				if posClass && c11ObservableNoPos(o, desc) == c11ObservableNoPos(firstOut, desc) {
-					// inside the class, and nothing but the rendering of Diagnostic.Pos differs
-					rep.failKnown(fmt.Sprintf("scen%d", si), what+" [only the diagnostic position of reports that isEqual equates]", c, c11PosFinding)
-					rep.hist("real:output-depends-on-arrival(known class)")
-				} else {
-					rep.fail(fmt.Sprintf("scen%d", si), what, c)
-					rep.hist("real:output-depends-on-arrival")
-				}
+				rep.fail(fmt.Sprintf("scen%d", si), what, c)
+				rep.hist("real:output-depends-on-arrival")
 				outs = append(outs, o)
 				break
 			}
@@ -1140,12 +1101,7 @@ func runC11(args []string) int {
 				if bo.Exit != ref.Exit || bo.JSON != ref.JSON || bo.Stderr != ref.Stderr {
 					what := fmt.Sprintf("pint output differs between --workers 1 and --workers %d", w)
 					c := map[string]any{"scenario": sc, "run_a": ref, "run_b": bo}
-					if posClass && bo.Exit == ref.Exit && bo.JSON == ref.JSON && c11StripCarets(bo.Stderr) == c11StripCarets(ref.Stderr) {
-						rep.failKnown(fmt.Sprintf("scen%d-w%d", si, w), what+" [only caret positions of reports that isEqual equates]", c, c11PosFinding)
-						rep.hist("binary:differs(known class)")
-					} else {
-						rep.fail(fmt.Sprintf("scen%d-w%d", si, w), what, c)
-					}
+					rep.fail(fmt.Sprintf("scen%d-w%d", si, w), what, c)
 					break
 				}
 			}
